@@ -26,11 +26,11 @@ FN_UN = ["sqrt", "exp", "sin", "cos", "tan", "sec", "csc", "cot", "asin", "acos"
 FN_DEG = list(exprgen.DEG)
 FUNCS = [("un", f) for f in FN_UN] + [("deg", f) for f in FN_DEG]
 # the other operand next to a MeasurementArray
-OTHER_KINDS = ["scalarInt", "scalarFloat", "quantity", "derivedQuantity", "pair", "listFloat",
+OTHER_KINDS = ["scalarInt", "scalarFloat", "scalarNpFloat", "quantity", "derivedQuantity", "pair", "listFloat",
                "listInt", "ndarrayFloat", "ndarrayInt", "marray", "marraySame", "marrayDerived"]
 # argument kinds of the math functions
 FN_KINDS = ["marray", "marrayDerived", "listFloat", "listInt", "ndarrayFloat", "ndarrayInt",
-            "scalarFloat", "scalarInt", "quantity"]
+            "scalarFloat", "scalarInt", "scalarNpFloat", "quantity"]
 UNITS = ["", "m", "s", "kg", "m/s", "kg*m^2/s^2"]
 DEG_INNER = {"sind": "sin", "cosd": "cos", "tand": "tan", "secd": "sec", "cscd": "csc",
              "cotd": "cot"}
@@ -114,9 +114,10 @@ class Builder:
             return ["op", "mul", a, ["fn", "un", "cos", c]] if prof in ("small",) else \
                 ["op", "add", a, ["op", "mul", ["leaf", self._push(
                     {"k": "scalarNum", "c": bits(0.01), "int": False})], c]]
-        if kind in ("scalarInt", "scalarFloat"):
+        if kind in ("scalarInt", "scalarFloat", "scalarNpFloat"):
             v = draw(rng, prof, integer=(kind == "scalarInt"))
-            return ["leaf", self._push({"k": "scalarNum", "c": bits(v), "int": kind == "scalarInt"})]
+            return ["leaf", self._push({"k": "scalarNum", "c": bits(v), "int": kind == "scalarInt",
+                                        "np": kind == "scalarNpFloat"})]
         if kind in ("listFloat", "listInt", "ndarrayFloat", "ndarrayInt"):
             integer = kind.endswith("Int")
             cs = [bits(draw(rng, prof, integer=integer)) for _ in range(n)]
@@ -435,7 +436,7 @@ def build_objects(q, np, case):
             objs[idx] = (vals[l["var"]], errs[l["var"]])
         elif k == "scalarNum":
             c = unbits(l["c"])
-            objs[idx] = int(c) if l["int"] else c
+            objs[idx] = int(c) if l["int"] else (np.float64(c) if l.get("np") else c)
         elif k == "listNum":
             objs[idx] = [int(unbits(c)) if l["int"] else unbits(c) for c in l["cs"]]
         elif k == "ndarrayNum":
@@ -496,7 +497,7 @@ def pretty(case):
             return "({!r}, {!r})".format(unbits(case["vals"][l["var"]]), unbits(case["errs"][l["var"]]))
         if k == "scalarNum":
             c = unbits(l["c"])
-            return repr(int(c) if l["int"] else c)
+            return repr(int(c) if l["int"] else c) if not l.get("np") else "np.float64({!r})".format(c)
         cs = [int(unbits(c)) if l["int"] else unbits(c) for c in l["cs"]]
         return repr(cs) if k == "listNum" else "np.array({!r})".format(cs)
 
